@@ -26,8 +26,8 @@ import vlib
 from vlib import log
 
 PROPS = [("Moyo.Props.C20", "Moyo/Props/C20.lean")]
-TARGET_PY = os.path.join(vlib.CACHE, "target-py20")
-PYMOD = os.path.join(vlib.CACHE, "pymod20")
+TARGET_PY = os.path.join(os.path.dirname(vlib.WORK) if os.environ.get("VERIF_REPO") else vlib.CACHE, "target-py20")
+PYMOD = os.path.join(os.path.dirname(vlib.WORK) if os.environ.get("VERIF_REPO") else vlib.CACHE, "pymod20")
 PYCHECK = os.path.join(vlib.VERIF, "pycheck")
 TRANSLATOR = os.path.join(vlib.VERIF, "tools", "translate_c20.py")
 GENERATED = os.path.join(vlib.LEAN, "Moyo", "Generated", "C20Bindings.lean")
